@@ -23,7 +23,7 @@ SUITE_MODULES = {
     "sheader": "FrameC",
     "typestate": "StreamTSC", "request": "SessionC",
     "session": "E2C", "control": "E2C", "control_cut": "E2C", "streams": "E2C", "foreign": "E2C",
-    "unknown_uni": "E2C", "stall": "E2C", "pace": "E2C", "emit": "E2C", "signals": "E2C", "wdgram": "E2C", "client": "E2C", "pair": "E2C",
+    "unknown_uni": "E2C", "stall": "E2C", "pace": "E2C", "emit": "E2C", "signals": "E2C", "wdgram": "E2C", "client": "E2C", "pair": "E2C", "requests": "E2C",
     "pin": "E4C", "digest": "E4C", "pem": "E4C", "identity": "E4C", "bind": "E4C", "idle": "E4C", "alpn": "E4C", "reload": "E4C",
     "wire": "WireC", "settings": "WireC", "dgram": "WireC", "capsule": "WireC", "ids": "WireC", "status": "WireC",
 }
@@ -103,9 +103,9 @@ PROPS["C15"] = {
 
 PROPS["C13"] = {
     "title": "Unknown and GREASE protocol elements are skipped whole, with no side effects",
-    "corr_modules": ["StreamTSC", "WireC", "E2C"],
+    "corr_modules": ["StreamTSC", "WireC", "FrameC", "E2C"],
     "suites": [("e1", "typestate", ["debug"]), ("e1", "settings", ["debug"]), ("e1", "capsule", ["debug"]),
-               ("e2", "control", ["debug"]), ("e2", "unknown_uni", ["debug"])],
+               ("e2", "control", ["debug"]), ("e2", "unknown_uni", ["debug"]), ("e1", "sheader", ["debug"])],
     "technique": PROOF_TECH,
     "level_text": "theorems: an unknown frame of any type id / payload is consumed whole on the sync and async paths of every typestate, and any number of insertions at frame boundaries leaves the delivered frames and the ending unchanged (induction over the exchange); pre-repair code refuted by a computed witness; tie: metamorphic differential runs",
     "level_note": CODEC_NOTE,
@@ -153,7 +153,7 @@ PROPS["C04"] = {
 PROPS["C18"] = {
     "title": "Only well-formed WebTransport requests and responses are admitted",
     "corr_modules": ["WireC", "QpackC", "SessionC", "E2C"],
-    "suites": [("e1", "status", ["debug"]), ("e1", "request", ["debug"]), ("e2", "client", ["debug"])],
+    "suites": [("e1", "status", ["debug"]), ("e1", "request", ["debug"]), ("e2", "client", ["debug"]), ("e2", "requests", ["debug"])],
     "technique": PROOF_TECH,
     "level_text": "theorems: request admitted iff extended CONNECT/webtransport/https with authority and path; every status constructor stays within 100..599 (print/parse identity on the whole range by exhaustive computation inside the proof); acceptance iff 2xx; reserved fields can never be overridden; pre-repair code refuted; tie: all 65 536 status integers plus decorated strings through the real parser",
     "level_note": CODEC_NOTE + "; '+200' and '0200' denote in-range numbers and are treated as numeric (DESIGN.md 5 C18)",
@@ -179,8 +179,8 @@ PROPS["C11"] = {
 
 PROPS["C12"] = {
     "title": "HTTP/3 and WebTransport stream rules are enforced with the prescribed error",
-    "corr_modules": ["StreamTSC", "WireC", "E2C"],
-    "suites": [("e1", "typestate", ["debug"]), ("e1", "settings", ["debug"]), ("e2", "control", ["debug"]), ("e2", "unknown_uni", ["debug"])],
+    "corr_modules": ["StreamTSC", "WireC", "FrameC", "E2C"],
+    "suites": [("e1", "typestate", ["debug"]), ("e1", "settings", ["debug"]), ("e2", "control", ["debug"]), ("e2", "unknown_uni", ["debug"]), ("e1", "sheader", ["debug"]), ("e2", "client", ["debug"]), ("e2", "requests", ["debug"]), ("e2", "foreign", ["debug"])],
     "technique": PROOF_TECH,
     "level_text": "theorems: every accept/reject verdict of every typestate for every frame is the one of an independently written specification table (RFC 9114 / WT draft) with a prescribed code; error codes equal the registry; control-stream position rules, duplicated/closed critical streams by theorems on the runner model; tie: all frame sequences to depth 3 (quick) / 4 (thorough) over the property's alphabet through the real typestates",
     "level_note": CODEC_NOTE + "; the runner functions (private driver code) are hand-transcribed and exercised end to end by the wire engine",
@@ -242,7 +242,7 @@ PROPS["C08"] = {
 PROPS["C09"] = {
     "title": "Termination is prompt, total and never misattributed",
     "corr_modules": ["E2C"],
-    "suites": [("e2", "session", ["debug"]), ("e2", "pair", ["debug"])],
+    "suites": [("e2", "session", ["debug"]), ("e2", "pair", ["debug"]), ("e2", "requests", ["debug"])],
     "technique": PROOF_TECH,
     "level_text": "theorems: the result cell is set at most once and every later get returns that value; each reported error names the actual cause (peer code+reason, local H3 error, transport cause, or local close); the worker closes with the code of the cause; tie: every way the session stream / connection ends x pending and subsequent calls against the running driver (none hangs, none succeeds, none panics)",
     "level_note": CODEC_NOTE + WIRE_NOTE + "; 'bounded time' is bounded model steps; a runtime shut down under the worker is outside the model",
